@@ -198,6 +198,12 @@ func ZZ_C07_TransportFault(q, what, k, exmode int) {
 		}
 	}
 	dead := vrt.Quiesce()
+	fired := what == 2 || (what == 0 && tr.writes >= k) || (what == 1 && tr.flushes >= k)
+	if !fired {
+		// the schedule batched the writes so that the k-th transport call never happened
+		vrt.Reach("c07-fault-not-reached")
+		return
+	}
 	if q > 0 || what == 2 {
 		// background sender / read loop failure: the channel is closed with the fault
 		vrt.Assert(!dead, "c07-no-thread-left-blocked")
